@@ -13,6 +13,9 @@ CONSTANT MaxN
 Configs == {[mode |-> m, n |-> n, valid |-> v, limit |-> l, tmo |-> t] :
               m \in {"auto", "manual", "noarg"}, n \in 0..MaxN, v \in {0, 1},
               l \in (-2)..(MaxN + 1), t \in {0, 1}}
+           \cup {[mode |-> "hand", n |-> n, valid |-> -1, limit |-> l, tmo |-> t] :
+                   n \in 0..MaxN, l \in (-2)..(MaxN + 1), t \in {0, 1}}
+HandCalls == {"step", "finish", "build"}     \* what is driven on a tableau with hand-made branches
 
 VARIABLES cfg, st, last       \* last = [a, call, ret] of the transition just taken (for the action clauses)
 vars == <<cfg, st, last>>
@@ -20,7 +23,7 @@ vars == <<cfg, st, last>>
 MInit == /\ cfg \in {c \in Configs : c.limit <= c.n + 1}
          /\ st = Init0(cfg)
          /\ last = [a |-> Obs(cfg, st), call |-> "", ret |-> "", started |-> st.started, ran |-> st.ran]
-MNext == \E call \in Calls :
+MNext == \E call \in (IF cfg.mode = "hand" THEN HandCalls ELSE Calls) :
            LET r == Do(cfg, st, call) IN
            /\ st' = r.st
            /\ last' = [a |-> Obs(cfg, st), call |-> call, ret |-> r.ret, started |-> st.started, ran |-> st.ran]
@@ -30,5 +33,5 @@ MSpec == MInit /\ [][MNext]_vars
 \* every transition of the model satisfies every contract clause
 ModelSatisfiesContracts ==
   last.call = "" \/ ClauseFail(cfg, st.hasarg, last.started, last.ran, last.a, Obs(cfg, st), last.call, last.ret) = ""
-TypeOK == st.k \in 0..cfg.n /\ (st.timedout => st.finished) /\ (st.k > 0 => st.trunk /\ st.started)
+TypeOK == st.k \in 0..cfg.n /\ (st.timedout => st.finished) /\ (st.k > 0 => (st.trunk \/ cfg.mode = "hand") /\ st.started)
 =============================================================================
